@@ -126,7 +126,37 @@ fn hostile_conn(r: &mut Rng, nonce: &mut u64, port: u16, span_ms: u64) -> ConnPl
     }
     let my = *nonce;
     *nonce += 1;
-    match r.below(9) {
+    match r.below(10) {
+        9 => {
+            // a body larger than the endpoint accepts (server default 1024),
+            // with either framing, complete or cut short
+            let n = *r.pick(&[1025usize, 1500, 3000, 20_000, 70_000]);
+            let body = r.bytes(n);
+            let (m, t, ct) = *r.pick(&[
+                ("PUT", "/t/a/1/true/Red?qs=x", "application/json"),
+                ("POST", "/form/x", "application/x-www-form-urlencoded"),
+                ("PUT", "/sinkless", "application/octet-stream"),
+                ("PUT", "/t/a/1/true/Red?qs=x", "text/plain"),
+            ]);
+            let fr = if r.chance(1, 2) {
+                BodyFraming::Length
+            } else {
+                BodyFraming::Chunked { sizes: (0..r.range(1, 8)).map(|_| r.usize_in(1, 700)).collect(), ext: false, trailer: r.chance(1, 4) }
+            };
+            let req = build_request(m, t, &[hdr("host", "sim"), hdr("x-sim", &format!("{};0;0;0;0", my)), hdr("content-type", ct)], &body, &fr);
+            if r.chance(1, 4) {
+                let cut = r.usize_in(1, req.len() - 1);
+                c.steps.push(Step::Send { data: Blob(req[..cut].to_vec()), completes: None });
+                c.reqs.push(hostile("oversize_body_cut", false, my));
+                let k = r.below(3);
+                ending(r, &mut c, k);
+            } else {
+                c.steps.push(Step::Send { data: Blob(req), completes: Some(0) });
+                c.reqs.push(hostile("oversize_body", false, my));
+                c.steps.push(Step::AwaitResponses { count: 1, max_ms: 35_000 });
+                c.steps.push(Step::Close);
+            }
+        }
         0 => {
             let n = *r.pick(&[1usize, 3, 16, 100, 1000, 9000, 65_536]);
             let n = r.usize_in(1, n);
